@@ -36,6 +36,9 @@ type scen struct {
 	// RawWS: payload values that contain raw JSON whitespace (line feeds), as marshalers built
 	// on json.Encoder (graphql.MarshalMap / MarshalAny, custom scalars) emit them
 	RawWS bool `json:"raw_whitespace,omitempty"`
+	// Paths: incremental payloads carry paths of DEcreasing length (a nested deferred group
+	// that completes before the group enclosing it), the last payload the shortest
+	Paths bool `json:"decreasing_paths,omitempty"`
 	// Pair: a second request ({name}) is served concurrently by the same server; both
 	// streams must be well-framed and carry their own payloads
 	Pair bool `json:"pair,omitempty"`
@@ -89,6 +92,9 @@ func (in *inst) Body() {
 				d = fmt.Sprintf("{\"inc\":%s}", rawSpecials[i%len(rawSpecials)])
 			}
 			hs.Incremental = append(hs.Incremental, d)
+			if in.sc.Paths {
+				hs.IncPaths = append(hs.IncPaths, []string{"a", "b", "c", "d"}[:in.sc.Payloads-i])
+			}
 		}
 		hs.Hook = func(ctx context.Context, object, field string, args map[string]any) { vrt.Yield("resolve") }
 		hs.IncHook = func(k int) { vrt.Yield("produce-inc") }
@@ -428,7 +434,7 @@ func scenarios(tier string) []*explore.Scenario {
 	var out []*explore.Scenario
 	add := func(s scen) {
 		s2 := s
-		name := fmt.Sprintf("%s q=%s k=%d ka=%v dc=%v sp=%v", s.Transport, s.Query, s.Payloads, s.KeepAlive, s.Disconnect, s.Special) + map[bool]string{true: " rawws", false: ""}[s.RawWS]
+		name := fmt.Sprintf("%s q=%s k=%d ka=%v dc=%v sp=%v", s.Transport, s.Query, s.Payloads, s.KeepAlive, s.Disconnect, s.Special) + map[bool]string{true: " rawws", false: ""}[s.RawWS] + map[bool]string{true: " paths", false: ""}[s.Paths]
 		if s.Pair {
 			name += " pair"
 		}
@@ -460,6 +466,8 @@ func scenarios(tier string) []*explore.Scenario {
 	add(scen{Transport: "sse", Query: "subscription{s2}", Payloads: 2, RawWS: true})
 	add(scen{Transport: "sse", Query: "subscription{s2}", Payloads: 3, KeepAlive: true, RawWS: true})
 	add(scen{Transport: "mixed", Query: "{a name}", Payloads: 2, RawWS: true})
+	add(scen{Transport: "mixed", Query: "{a name}", Payloads: 2, Paths: true})
+	add(scen{Transport: "mixed", Query: "{a name}", Payloads: 3, Paths: true})
 	// two streams served concurrently by one server
 	add(scen{Transport: "sse", Query: "{a name}", Pair: true})
 	add(scen{Transport: "sse", Query: "subscription{s2}", Payloads: 1, Pair: true})
